@@ -1937,6 +1937,11 @@ package dig
 //@   requires p != nil
 //@   ensures is(p, ptr(constructorNode)) ==> r == as(p, ptr(constructorNode)).orders[s]
 
+// the only implementation, verified: it is literally the clause assumed above
+//@ func (n *constructorNode) Order(s) (r)
+//@   requires n != nil
+//@   ensures[C05:a-constructors-position-is-what-its-order-map-says] r == n.orders[s] && unchangedAll()
+
 //@ func (gh *graphHolder) EdgesFrom(u) (orders)
 //@   requires gh != nil && gh.s != nil && 0 <= u && u < len(gh.nodes) && gh.nodes[u] != nil
 // (EdgesFrom is only called through the graph.Graph interface by the search, so
